@@ -1,5 +1,6 @@
 import NibabelModel.Model.C16
 import NibabelModel.Model.C16_Ext
+import NibabelModel.Model.C16_Save
 import Driver.Util
 /-! Line-protocol driver for C16: `C16 <op> <args...>` -> one observable line.
 
@@ -178,6 +179,62 @@ def showOptSl (o : Option (List Triple)) : String := match o with | some l => sh
 
 def mapMOpt {α β} (f : α → Option β) (l : List α) : Option (List β) := l.mapM f
 
+/-- ten S20 name-table slots: names joined by `,` (at most ten of at most 20 bytes; missing slots / bytes are zero) -/
+def parseFields? (s : String) : Option (List (List Nat)) :=
+  match (if s = "-" then some [] else (s.splitOn ",").mapM parseName?) with
+  | some fs =>
+      if fs.length > 10 ∨ fs.any (fun f => f.length > 20) then none
+      else some (fs.map (fun f => f ++ List.replicate (20 - f.length) 0) ++ List.replicate (10 - fs.length) (List.replicate 20 0))
+  | none => none
+
+/-- view history: `-` or steps joined by `;`; a step is `c` (copy) or an index list (words) -/
+def parseSteps? (s : String) : Option (List ViewStep) :=
+  if s = "-" then some [] else (s.splitOn ";").mapM (fun t =>
+    if t = "c" then some ViewStep.copy else (parseWords? t).map ViewStep.index)
+
+/-- executable `stepsOk` -/
+def stepsInRange : Nat → List ViewStep → Bool
+  | _, [] => true
+  | n, .index idxs :: r => idxs.all (· < n) && stepsInRange idxs.length r
+  | n, .copy :: r => stepsInRange n r
+
+/-- whole TRK save (under the supplied header fields `sup`) + eager / lazy load, as one observable line -/
+def trkRun (sup : TrkCounts) (order : String) (v0 v1 v2 : Rat) (d0 d1 d2 : Int) (a : Aff) (items : List Item) : String :=
+  (match ioOrientSP a with
+   | none => "bad-op"
+   | some ao =>
+       let g : TrkGeom := ⟨(v0, v1, v2), (d0, d1, d2), order.toList, a⟩
+       match trackvisToRas g ao with
+       | .error e => e.name
+       | .ok t =>
+           let tinv := t.inv
+           match items.mapM (fun it => (it.pts.mapM (applyAffBits tinv)).map (fun p => { it with pts := p })) with
+           | none => "inexact"
+           | some tvItems =>
+               match trkSaveItemsH sup tvItems with
+               | .error e => e.name
+               | .ok (h, words) =>
+                   let hdr := s!"n={h.nStreams} ns={h.ns} np={h.np} sf={showFields h.scalarFields} pf={showFields h.propFields} data={showWords words}"
+                   match trkLoadItems h words with
+                   | .error e => hdr ++ " load=" ++ e.name
+                   | .ok loaded =>
+                       -- lazy item iteration: `LazyTractogram.data` with the pending affine;
+                       -- eager: the `ArraySequence` path (`trkEager`), compared with the lazy dict view
+                       let eagerT : Option Tracto × Option Tracto × Bool := match nameSlices h.ns h.scalarFields scalarsName,
+                                           nameSlices h.np h.propFields propertiesName with
+                         | .ok dppS, .ok dpsS =>
+                             let recs : List TrkRec := (trkRead h.ns h.np h.nStreams 0 words).items.map (fun x => x.1)
+                             (trkEager t dppS dpsS recs, trkLazy t dppS dpsS recs, recs.isEmpty)
+                         | _, _ => (none, none, true)
+                       match lazyItems t loaded, lazyStreamlines t loaded, eagerT with
+                       | some ras, some sls, (some eg, lz, noRecs) =>
+                           let eagerItems := tractoItems eg
+                           let flag := if noRecs || lz == some eg then "" else " lazyT=differs"
+                           if ras.map (fun (it : Item) => it.pts) = sls then
+                             hdr ++ " load=" ++ showItems eagerItems ++ " lazy=" ++ showItems ras ++ flag
+                           else hdr ++ " load=" ++ showItems eagerItems ++ " lazy=differs"
+                       | _, _, _ => hdr ++ " load=inexact")
+
 def handle : List String → String
   | ["off", l] =>
       match l.toNat? with
@@ -251,41 +308,35 @@ def handle : List String → String
   | ["trk", order, vs, dims, a, items] =>
       match parseRats? vs, parseIntList? dims, parseAff? a, parseItems? items with
       | some [v0, v1, v2], some [d0, d1, d2], some a, some items =>
-          (match ioOrientSP a with
-           | none => "bad-op"
-           | some ao =>
-               let g : TrkGeom := ⟨(v0, v1, v2), (d0, d1, d2), order.toList, a⟩
-               match trackvisToRas g ao with
-               | .error e => e.name
-               | .ok t =>
-                   let tinv := t.inv
-                   match items.mapM (fun it => (it.pts.mapM (applyAffBits tinv)).map (fun p => { it with pts := p })) with
-                   | none => "inexact"
-                   | some tvItems =>
-                       match trkSaveItems tvItems with
-                       | .error e => e.name
-                       | .ok (h, words) =>
-                           let hdr := s!"n={h.nStreams} ns={h.ns} np={h.np} sf={showFields h.scalarFields} pf={showFields h.propFields} data={showWords words}"
-                           match trkLoadItems h words with
-                           | .error e => hdr ++ " load=" ++ e.name
-                           | .ok loaded =>
-                               -- lazy item iteration: `LazyTractogram.data` with the pending affine;
-                               -- eager: the `ArraySequence` path (`trkEager`), compared with the lazy dict view
-                               let eagerT : Option Tracto × Option Tracto × Bool := match nameSlices h.ns h.scalarFields scalarsName,
-                                                   nameSlices h.np h.propFields propertiesName with
-                                 | .ok dppS, .ok dpsS =>
-                                     let recs : List TrkRec := (trkRead h.ns h.np h.nStreams 0 words).items.map (fun x => x.1)
-                                     (trkEager t dppS dpsS recs, trkLazy t dppS dpsS recs, recs.isEmpty)
-                                 | _, _ => (none, none, true)
-                               match lazyItems t loaded, lazyStreamlines t loaded, eagerT with
-                               | some ras, some sls, (some eg, lz, noRecs) =>
-                                   let eagerItems := tractoItems eg
-                                   let flag := if noRecs || lz == some eg then "" else " lazyT=differs"
-                                   if ras.map (fun (it : Item) => it.pts) = sls then
-                                     hdr ++ " load=" ++ showItems eagerItems ++ " lazy=" ++ showItems ras ++ flag
-                                   else hdr ++ " load=" ++ showItems eagerItems ++ " lazy=differs"
-                               | _, _, _ => hdr ++ " load=inexact")
+          trkRun ⟨0, 0, 0, zeroFields, zeroFields⟩ order v0 v1 v2 d0 d1 d2 a items
       | _, _, _, _ => "bad-op"
+  | ["trkh", order, vs, dims, a, sf, pf, ns0, np0, n0, items] =>
+      match parseRats? vs, parseIntList? dims, parseAff? a, parseItems? items, parseFields? sf, parseFields? pf,
+            ns0.toNat?, np0.toNat?, n0.toNat? with
+      | some [v0, v1, v2], some [d0, d1, d2], some a, some items, some sf, some pf, some ns0, some np0, some n0 =>
+          trkRun ⟨n0, ns0, np0, sf, pf⟩ order v0 v1 v2 d0 d1 d2 a items
+      | _, _, _, _, _, _, _, _, _ => "bad-op"
+  | ["tview", items, steps] =>
+      -- what `save` iterates over (`iter(t.to_world(lazy=True))`) for a fresh tractogram after a history of indexing steps
+      match parseItems? items, parseSteps? steps with
+      | some items, some steps =>
+          if !stepsInRange items.length steps || steps.any (fun st => st == ViewStep.copy) then "bad-op"
+          else
+            let pn := match items with | [] => [] | it :: _ => it.dpp.map (·.1)
+            let sn := match items with | [] => [] | it :: _ => it.dps.map (·.1)
+            let t := steps.foldl (fun (t : TractoView) st => match st with | .index idxs => t.index idxs | .copy => t)
+                       (TractoView.ofItems pn sn items)
+            showItems t.savedItems
+      | _, _ => "bad-op"
+  | ["view", l, sls, steps] =>
+      match l.toNat?, parseSls? sls, parseSteps? steps with
+      | some l, some sls, some steps =>
+          if !stepsInRange sls.length steps then "bad-op"
+          else
+            let v := (SeqView.ofLists sls).run steps
+            let n := tckHdrOffset l
+            s!"{n} {tckDataStart l n} {showSl (tckData (savedStreamlines v))}"
+      | _, _, _ => "bad-op"
   | ["trkr", ns, np, announced, junk, start, acts, words] =>
       match ns.toNat?, np.toNat?, announced.toNat?, junk.toNat?, start.toNat?, parseActs? acts, parseWords? words with
       | some ns, some np, some announced, some junk, some start, some acts, some words =>
